@@ -59,7 +59,8 @@ package input
 //@   ensures [container_constructor] optMerged(result.ContainerConstructor, m1.ContainerConstructor, m2.ContainerConstructor)
 //@   ensures [default_must_getter] optMergedBool(result.DefaultMustGetter, m1.DefaultMustGetter, m2.DefaultMustGetter)
 //@   ensures [imports] mapMergedSS(result.Imports, m1.Imports, m2.Imports)
-//@   ensures [functions] mapMergedSS(result.Functions, m1.Functions, m2.Functions)
+// (C15: the built-in functions env/envInt/todo come from the default input; they stay registered only because maps merge key by key)
+//@   ensures [functions C09 C15 C03] mapMergedSS(result.Functions, m1.Functions, m2.Functions)
 
 //@ func mergeArgs
 //@   property C09
@@ -113,7 +114,7 @@ package input
 //@   ensures [meta_container_constructor] optMerged(result.Meta.ContainerConstructor, i1.Meta.ContainerConstructor, i2.Meta.ContainerConstructor)
 //@   ensures [meta_default_must_getter] optMergedBool(result.Meta.DefaultMustGetter, i1.Meta.DefaultMustGetter, i2.Meta.DefaultMustGetter)
 //@   ensures [meta_imports] mapMergedSS(result.Meta.Imports, i1.Meta.Imports, i2.Meta.Imports)
-//@   ensures [meta_functions] mapMergedSS(result.Meta.Functions, i1.Meta.Functions, i2.Meta.Functions)
+//@   ensures [meta_functions C09 C15 C03] mapMergedSS(result.Meta.Functions, i1.Meta.Functions, i2.Meta.Functions)
 //@   ensures [params] mapMergedSA(result.Params, i1.Params, i2.Params)
 //@   ensures [services_dom] forall k string :: (k in result.Services) <==> (k in i1.Services || k in i2.Services)
 //@   ensures [services_only_earlier] forall k string :: k in i1.Services && !(k in i2.Services) ==> result.Services[k] == i1.Services[k]
